@@ -1,7 +1,7 @@
 (* C05 — Listed order, once per traversal; once per inner() call below a wrapper. *)
 From Coq Require Import List Arith Bool.
 Import ListNotations.
-From NJ Require Import Base Registry Classify Select Reorder Machine Spec Bind Refine Chain SpecLemmas PreserveProofs WfProofs EndToEnd.
+From NJ Require Import Base Registry Classify Select Reorder Machine Spec Bind Refine Chain SpecLemmas PreserveProofs WfProofs EndToEnd TableSpec.
 
 (* In the reference semantics, with every provider logging its id and wrapper p calling inner()
    ncalls p times: the log is the list order, each provider once per traversal, everything below a
@@ -109,3 +109,17 @@ Proof.
   split; [vm_compute; reflexivity|]. split; [vm_compute; reflexivity|]. vm_compute. reflexivity.
 Qed.
 Print Assumptions C05_log_nonvacuous.
+
+(* Which providers take effect "before any per-invocation provider" is decided by the
+   classification; in particular a function that produces nothing (and returns no TerminalError)
+   is never hoisted, whatever it is annotated with (Singleton excepted, which runs once per process
+   by definition): it runs at its listed position on every invocation.  From the specification of the classification (TableSpec.v). *)
+Theorem C05_nothing_to_produce_never_hoisted : forall te d cc s,
+  characterizeFunc te d cc = Some s -> is_func_shape (d_shape d) = true -> d_singleton d = false ->
+  pred_holds te d cc P_hasOutputs = false -> pred_holds te d cc P_returnsTerminalError = false ->
+  s_group s <> GStatic.
+Proof.
+  intros te d cc s H Hf Hsi Ho Ht Hg. pose proof (static_function_produces te d cc s H Hf Hg Hsi) as Hp.
+  rewrite Ho, Ht in Hp. discriminate Hp.
+Qed.
+Print Assumptions C05_nothing_to_produce_never_hoisted.
